@@ -280,6 +280,7 @@ def bondStep (s : State) (o b e amt : Nat) (dep : Bool) : State × Out :=
 /-- `AddDelegate` once the oracle is found; `sl` is its pending slash amount -/
 def addDelegateTo (s : State) (o : Nat) (orc : Oracle) (sl amt : Nat) (dep : Bool) : State × Out :=
   if 0 < sl && amt < sl then (s, .invalid) else
+  if s.params.threshold * s.params.multiple < amt - sl then (s, .aboveMax) else   -- the addition alone exceeds the maximum
   if orc.stake + (amt - sl) < s.params.threshold then (s, .belowMin) else
   if s.params.threshold * s.params.multiple < orc.stake + (amt - sl) then (s, .aboveMax) else
   if !dep then (s, .dep) else
